@@ -33,7 +33,16 @@ impl MO {
         use crate::val::Outcome;
         match (self, o) {
             (MO::Val(a), Outcome::Val(b)) => a == b,
-            (MO::Fail(cs), Outcome::Fail(c, _)) => cs.is_empty() || cs.contains(c),
+            // the statements tell absence (unbound name, missing field/key) from every other
+            // failure and nothing more: which class or wording a type error, a bad index or a
+            // propagated failure carries is not theirs to fix, so classes are compared only
+            // up to that partition
+            (MO::Fail(cs), Outcome::Fail(c, _)) => {
+                cs.is_empty()
+                    || cs.contains(c)
+                    || (cs.iter().all(|x| x.is_absent()) && c.is_absent())
+                    || (cs.iter().all(|x| !x.is_absent()) && !c.is_absent())
+            }
             (MO::AnyOf(alts), o) => alts.iter().any(|a| a.accepts(o)),
             _ => false,
         }
